@@ -281,9 +281,11 @@ Proof. intros; split; reflexivity. Qed.
 (* ================================================================ non-vacuity *)
 Example C05More_nonvacuous :
   (* eval_sem: a tree exercising slice, concat, not, le evaluates alike (and to a value) under both instantiations *)
-  (exists e w, parse_text [108;101;40;48;120;49;50;51;52;41;32;64;32;40;33;53;41;91;55;58;48;93]%N = POk e w /\ wf_expr e /\
-     eval code_ops dummy_var e [] = EOk (VInt (mk 0x3412fa (Some 24%N)), []) /\
-     eval math_ops dummy_var e [] = EOk (VInt (mk 0x3412fa (Some 24%N)), [])) /\       (* le(0x1234) @ (!5)[7:0] *)
+  (let t := [108;101;40;48;120;49;50;51;52;41;32;64;32;40;33;53;41;91;55;58;48;93]%N in   (* le(0x1234) @ (!5)[7:0] *)
+   scalar_text t /\
+   match parse_text t with POk e _ => wf_expr e | _ => False end /\
+   match run code_ops t with POk (_, r) _ => r = EOk (VInt (mk 0x3412fa (Some 24%N))) | _ => False end /\
+   match run math_ops t with POk (_, r) _ => r = EOk (VInt (mk 0x3412fa (Some 24%N))) | _ => False end) /\
   (* errors *)
   eval code_ops dummy_var (EBin Div (ENum 1 None) (ENum 0 None)) [] = EErr /\
   eval code_ops dummy_var (EBin Concat (ENum 1 None) (ENum 0 (Some 1%N))) [] = EErr /\
@@ -299,4 +301,7 @@ Example C05More_nonvacuous :
   (* strings *)
   string_contents (34 :: escape [34;233;0x1F600] ++ [34])%N = Some [34;233;0x1F600]%N /\
   decode 1 (encode 1 [0x1F600]%N) = Some [0x1F600]%N /\ encode 5 [65;233;0x20AC]%N = [65;233;0].
-Proof. vm_compute. repeat split; try reflexivity. eexists; eexists; repeat split; reflexivity. Qed.
+Proof.
+  split; [cbv zeta; split; [repeat constructor|vm_compute; repeat split; reflexivity]|].
+  vm_compute. repeat split; reflexivity.
+Qed.
